@@ -114,3 +114,35 @@ def run_replay(pid, path):
         return 1
     print("counterexample did not reproduce natively")
     return 0
+
+
+def exec_region_natively(target, region, env):
+    """Run one statement region of the REAL source (located like the unit's
+    region) natively, with the real module's globals plus `env`."""
+    import ast
+    import importlib
+
+    from .world import World
+
+    w = World()
+    mi, node, _ = w.locate(target)
+    kind, _, key = region.partition(":")
+    found = None
+    for nd in ast.walk(node):
+        if isinstance(nd, ast.For) and "for:" + ast.unparse(nd.iter) == key:
+            found = nd
+        elif isinstance(nd, ast.While) and "while:" + ast.unparse(nd.test) == key:
+            found = nd
+        elif isinstance(nd, ast.Assign) and kind == "assign" and ast.unparse(nd.targets[0]) == key:
+            found = nd
+        elif isinstance(nd, ast.If) and kind == "if" and ast.unparse(nd.test) == key:
+            found = nd
+    if found is None:
+        raise LookupError(region)
+    body = found.body if kind == "body" else [found]
+    mod = importlib.import_module(mi.modname)
+    g = dict(vars(mod))
+    g.update(env)
+    code = compile(ast.fix_missing_locations(ast.Module(body=body, type_ignores=[])), mi.relpath, "exec")
+    exec(code, g)
+    return g
